@@ -484,6 +484,9 @@ func panicClass(msg string) string {
 	if i := strings.Index(msg, " with "); i > 0 {
 		msg = msg[:i]
 	}
+	if i := strings.Index(msg, "invalid key type"); i >= 0 {
+		msg = msg[:i+len("invalid key type")] // reflect.MapOf: the offending Go type is not part of the class
+	}
 	msg = numRe.ReplaceAllString(msg, "")
 	if w := strings.Fields(msg); len(w) > 7 {
 		msg = strings.Join(w[:7], " ")
